@@ -5,10 +5,15 @@ import (
 	"reflect"
 
 	"github.com/csgura/fp"
+	"github.com/csgura/fp/eq"
+	"github.com/csgura/fp/hash"
+	"github.com/csgura/fp/immutable"
 	"github.com/csgura/fp/iterator"
 	"github.com/csgura/fp/list"
 	"github.com/csgura/fp/monoid"
+	"github.com/csgura/fp/product"
 	"github.com/csgura/fp/seq"
+	. "verifharness/common"
 )
 
 // identityFreshness (C11; seed C11-13 of round 5): "Empty is a two-sided identity" - for EVERY use of the instance, also after a
@@ -68,6 +73,61 @@ func identityFreshness(e *emitter) {
 			}
 			if r := seq.Reduce(fp.Seq[M]{x}, m); !reflect.DeepEqual(r, x) {
 				fail("monoid.identity-fresh", in, fmt.Sprintf("seq.Reduce([%v]) = %v afterwards", x, r))
+			}
+		}
+	}
+}
+
+// mergeIdentityCoarseHasher (C11; session-6 audit, finding 2): monoid.MergeMap / MergeSet take the zero fp.Map / fp.Set as their
+// identity.  The zero value has no hasher (its fallback is keyed by Go ==), so Combine(Empty, b) must not rebuild b on top of it:
+// for a map b whose Hashable has an Eqv COARSER than == (keys equal mod 97) the result would lose b's key equivalence -
+// Combine(Empty, b).Get(98) = None although b.Get(98) = Some(10).  "Empty is a two-sided identity": Combine(Empty, b) and
+// Combine(b, Empty) answer every lookup as b does.
+func mergeIdentityCoarseHasher(e *emitter) {
+	if len(only) > 0 && !only["mon"] {
+		return
+	}
+	fail := func(key, in, what string) { e.sink.DirectFail(key, in, what) }
+	h := hash.New(eq.New(func(a, b int) bool { return Emod(a, 97) == Emod(b, 97) }), func(k int) uint32 { return uint32(Emod(k, 97)) * 40503 })
+	probes := []int{1, 98, 195, 2, 99, 3}
+	{
+		m := monoid.MergeMap[int, int]()
+		b := immutable.Map(h, product.Tuple2(1, 10), product.Tuple2(2, 20))
+		for _, c := range []struct {
+			name string
+			got  fp.Map[int, int]
+		}{{"Combine(Empty,b)", m.Combine(m.Empty(), b)}, {"Combine(b,Empty)", m.Combine(b, m.Empty())},
+			{"seq.Reduce([b])", seq.Reduce(fp.Seq[fp.Map[int, int]]{b}, m)}, {"Combine(Combine(Empty,b),Empty)", m.Combine(m.Combine(m.Empty(), b), m.Empty())}} {
+			in := fmt.Sprintf("(law merge-identity MergeMap %s hasher=mod97)", c.name)
+			e.checks++
+			if c.got.Size() != b.Size() {
+				fail("monoid.merge-identity", in, fmt.Sprintf("Size %d, b has %d", c.got.Size(), b.Size()))
+			}
+			for _, k := range probes {
+				e.checks++
+				if g, w := c.got.Get(k), b.Get(k); g != w {
+					fail("monoid.merge-identity", in, fmt.Sprintf("Get(%d) = %v, b.Get(%d) = %v", k, g, k, w))
+				}
+			}
+		}
+	}
+	{
+		m := monoid.MergeSet[int]()
+		b := immutable.Set(h, 1, 2)
+		for _, c := range []struct {
+			name string
+			got  fp.Set[int]
+		}{{"Combine(Empty,b)", m.Combine(m.Empty(), b)}, {"Combine(b,Empty)", m.Combine(b, m.Empty())}, {"seq.Reduce([b])", seq.Reduce(fp.Seq[fp.Set[int]]{b}, m)}} {
+			in := fmt.Sprintf("(law merge-identity MergeSet %s hasher=mod97)", c.name)
+			e.checks++
+			if c.got.Size() != b.Size() {
+				fail("monoid.merge-identity", in, fmt.Sprintf("Size %d, b has %d", c.got.Size(), b.Size()))
+			}
+			for _, k := range probes {
+				e.checks++
+				if g, w := c.got.Contains(k), b.Contains(k); g != w {
+					fail("monoid.merge-identity", in, fmt.Sprintf("Contains(%d) = %v, b.Contains(%d) = %v", k, g, k, w))
+				}
 			}
 		}
 	}
